@@ -8,7 +8,7 @@ from tools.props import c04
 ID = 'C07'
 TARGETS = ['MindsVerif.Props.C07']
 THEOREMS = ['MindsVerif.Props.C07.' + n for n in (
-    'C07_std', 'C07_mysql', 'C07_structure', 'C07_tostring_partial', 'C07_tostring_codec', 'C07_witness_mysql', 'C07_witness_mysql_value',
+    'C07_std', 'C07_mysql', 'C07_structure', 'C07_tostring_codec', 'C07_tostring_partial', 'C07_witness_mysql', 'C07_witness_mysql_value',
     'C07_witness_tostring')]
 ASSUME = [
     'standard-SQL string literal rules (LitRender.stdLex: only the doubled quote is special) — validated in this run against sqlite3 '
